@@ -557,23 +557,31 @@ func evaluate(c *common.Check, cases []*Case, results []*Result, keep bool) {
 			kidsOf[pr] = append(kidsOf[pr], kr)
 		}
 		for _, pr := range parents {
-			var failed []*Result
-			sameCause := true
+			// failing parts grouped by (stage, diagnostics): a group of two or more parts that fail
+			// in exactly the same way has a cause that is not one particular name; it is reported
+			// once and not split further. Parts that fail in their own way are split / reported.
+			var order []string
+			groups := map[string][]*Result{}
 			for _, kr := range kidsOf[pr] {
-				if !kr.OK() {
-					failed = append(failed, kr)
-					sameCause = sameCause && kr.Stage() == pr.Stage() && kr.ErrKey() == pr.ErrKey()
+				if kr.OK() {
+					continue
 				}
+				k := kr.Stage() + ":" + kr.ErrKey()
+				if _, ok := groups[k]; !ok {
+					order = append(order, k)
+				}
+				groups[k] = append(groups[k], kr)
 			}
-			switch {
-			case len(failed) == 0:
+			if len(order) == 0 {
 				// every part passes on its own: an interaction between atoms
 				report(c, "naming-packed:"+pr.Case.Schema+":"+pr.Stage()+":"+pr.ErrKey(), pr)
-			case len(failed) == len(kidsOf[pr]) && len(failed) > 1 && sameCause:
-				// every part fails exactly like the whole: the cause is not a particular name
-				report(c, "naming-packed:"+pr.Case.Schema+":"+pr.Stage()+":"+pr.ErrKey(), pr)
-			default:
-				frontier = append(frontier, failed...)
+			}
+			for _, k := range order {
+				if g := groups[k]; len(g) >= 2 {
+					report(c, "naming-packed:"+pr.Case.Schema+":"+k, g[0])
+				} else {
+					frontier = append(frontier, g[0])
+				}
 			}
 		}
 	}
